@@ -106,74 +106,107 @@ func v30isInt(v Value, want int) bool {
 	return ok && n == want
 }
 
-// C30 n-ary + (with -) and * (with /): 2..3 (thorough 4) operands, each a literal or an
-// identifier, operands after the first optionally inverted (a - b is Add(a, Sub b), a / b is
-// Mul(a, Div b), as the parser builds them).
+// v30normalizeProducts switches on the engine's canonical form for integer products (see
+// engine/symgo/x_c30.go); natively it does nothing.
+func v30normalizeProducts() {}
+
+// C30 n-ary + (with -): 2..3 (thorough 4) operands, each a literal or an identifier, operands
+// after the first optionally subtracted (a - b is Add(a, Sub b) as the parser builds it).
 //
-//symgo:harness prop=C30 tier=quick arith=int shards=8 tshards=16 timeout=300 ttimeout=1700 qtimeout=20000 bounds=n-ary_+_-_and_*_/_with_2..3_(thorough_4)_operands,_each_a_literal_or_an_identifier;integer_values_|v|<=99;divisors_non-zero,_total_divisor_divides_total_product_and_constant_divisor_divides_constant_product outside=decimals_and_inexact_division;zero_divisors;ill-typed_operands
-func VerifC30FoldArith() {
+//symgo:harness prop=C30 tier=quick arith=int shards=4 tshards=8 timeout=300 ttimeout=1700 qtimeout=20000 bounds=n-ary_+_and_-_with_2..3_(thorough_4)_operands,_each_a_literal_or_an_identifier;integer_values_|v|<=8000_(all_results_small_ints) outside=decimals_and_larger_integers;ill-typed_operands
+func VerifC30FoldAdd() {
 	maxN := 3
 	if rt.Thorough() {
 		maxN = 4
 	}
 	n := 2 + rt.Pick("n", maxN-1)
-	mul := rt.Pick("mul", 2) == 1
 	raw := make([]int, n)
 	ops, ctx := v30operands(n, func(i int) Value {
-		raw[i] = v30int("v"+v30names[i], 99)
+		raw[i] = v30int("v"+v30names[i], 8000)
 		return IntVal(raw[i])
 	})
 	inv := make([]bool, n)
+	want := raw[0]
 	for i := 1; i < n; i++ {
 		inv[i] = rt.Pick("inv"+v30names[i], 2) == 1
+		if inv[i] {
+			want -= raw[i]
+		} else {
+			want += raw[i]
+		}
 	}
-	// model
-	want := 0
-	leadingDiv := false
-	if mul {
-		num, den, cnum, cden := 1, 1, 1, 1
-		seenVar := false
+	v1 := v30run("fold/add", ctx, func(b Builder) Expr {
+		es := make([]Expr, n)
 		for i := range n {
+			es[i] = ops[i].expr()
 			if inv[i] {
-				rt.Assume(raw[i] != 0)
-				den *= raw[i]
-				if ops[i].isConst {
-					cden *= raw[i]
-				} else if !seenVar {
-					seenVar, leadingDiv = true, ops[0].isConst
-				}
-			} else {
-				num *= raw[i]
-				if ops[i].isConst {
-					cnum *= raw[i]
-				} else {
-					seenVar = true
-				}
+				es[i] = b.Unary(tok.Sub, es[i])
 			}
 		}
-		// exact division at run time, and at compile time when the Folder divides the constant
-		// multiplier by the constant divisor
-		rt.Assume(num%den == 0 && (cnum == 1 || cnum%cden == 0))
-		want = num / den
-		if cnum == 0 {
-			leadingDiv = false // literal zero: folded to 0
-		}
-	} else {
-		for i := range n {
-			if inv[i] {
-				want -= raw[i]
-			} else {
-				want += raw[i]
+		return b.Nary(tok.Add, es)
+	})
+	rt.Assert("eval/add-model", v30isInt(v1, want))
+}
+
+// C30 n-ary * (with /): 2..3 (thorough 4) operands, each a literal or an identifier, operands
+// after the first optionally divisors (a / b is Mul(a, Div b) as the parser builds it). Exact
+// division by construction: every divisor d is a non-zero symbolic integer, the first operand is
+// a multiple of the product of the identifier divisors, and the first literal multiplier (the
+// first operand if there is none) is a multiple of the product of the literal divisors.
+//
+//symgo:harness prop=C30 tier=quick arith=int shards=4 tshards=16 timeout=300 ttimeout=1700 qtimeout=20000 bounds=n-ary_*_and_/_with_2..3_(thorough_4)_operands,_each_a_literal_or_an_identifier;multipliers_m*(divisors_they_carry),_|m|<=9;divisors_1<=|d|<=3_(all_results_small_ints);all_divisions_exact_by_construction outside=decimals_and_inexact_division;zero_divisors;ill-typed_operands
+func VerifC30FoldMul() {
+	v30normalizeProducts()
+	maxN := 3
+	if rt.Thorough() {
+		maxN = 4
+	}
+	n := 2 + rt.Pick("n", maxN-1)
+	isConst, inv, f := make([]bool, n), make([]bool, n), make([]int, n)
+	firstConstMul, firstIdent := -1, -1
+	hasConstDiv := false
+	for i := range n {
+		isConst[i] = rt.Pick("const"+v30names[i], 2) == 1
+		inv[i] = i > 0 && rt.Pick("inv"+v30names[i], 2) == 1
+		if inv[i] {
+			f[i] = v30int("v"+v30names[i], 3)
+			rt.Assume(f[i] != 0)
+			hasConstDiv = hasConstDiv || isConst[i]
+		} else {
+			f[i] = v30int("v"+v30names[i], 9)
+			if isConst[i] && firstConstMul < 0 {
+				firstConstMul = i
 			}
 		}
+		if !isConst[i] && firstIdent < 0 {
+			firstIdent = i
+		}
 	}
-	token, invTok := tok.Add, tok.Sub
-	if mul {
-		token, invTok = tok.Mul, tok.Div
+	// the values: divisors as drawn, multipliers times the divisors they carry
+	raw := make([]int, n)
+	copy(raw, f)
+	want := 1
+	for i := range n {
+		switch {
+		case !inv[i]:
+			want *= f[i]
+		case isConst[i] && firstConstMul >= 0:
+			raw[firstConstMul] *= f[i]
+		default:
+			raw[0] *= f[i]
+		}
 	}
-	label := "fold/arith"
-	if leadingDiv {
-		// literal / identifier: the folded list starts with the Div unary
+	ctx := &v30ctx{}
+	ops := make([]v30opd, n)
+	for i := range n {
+		ops[i] = v30opd{val: IntVal(raw[i]), isConst: isConst[i], name: v30names[i]}
+		if !isConst[i] {
+			ctx.names, ctx.vals = append(ctx.names, ops[i].name), append(ctx.vals, ops[i].val)
+		}
+	}
+	label := "fold/mul"
+	if isConst[0] && firstIdent > 0 && inv[firstIdent] {
+		// literal / identifier ...: after folding the operand list starts with the Div unary
 		rt.Reach("literal-over-identifier")
 		label = "fold/literal-over-identifier"
 	}
@@ -182,10 +215,10 @@ func VerifC30FoldArith() {
 		for i := range n {
 			es[i] = ops[i].expr()
 			if inv[i] {
-				es[i] = b.Unary(invTok, es[i])
+				es[i] = b.Unary(tok.Div, es[i])
 			}
 		}
-		return b.Nary(token, es)
+		return b.Nary(tok.Mul, es)
 	})
-	rt.Assert("eval/arith-model", v30isInt(v1, want))
+	rt.Assert("eval/mul-model", v30isInt(v1, want))
 }
